@@ -1,4 +1,4 @@
 SPECIFICATION FairSpec
-CONSTANTS NT = 2 NI = 3 NK = 2 Bug = "none"
+CONSTANTS NT = 2 NI = 3 NK = 2 NC = 2 Bug = "none"
 PROPERTY Termination
 CHECK_DEADLOCK TRUE
